@@ -148,12 +148,12 @@ func concurrentRound(in *concInput, round int, out *vh.Result, queries, tolerate
 		}
 		return blk
 	}
+	r.onBuilt = vers.add
 	storeOne := func(blk [][]mEvent) error {
 		ok, err := r.store(blk)
 		if !ok {
 			return err
 		}
-		vers.add(r.oracle[len(r.oracle)-1])
 		return nil
 	}
 	// stable prefix: base .. base+1 with events, then up to the first block of the next window
@@ -195,6 +195,9 @@ func concurrentRound(in *concInput, round int, out *vh.Result, queries, tolerate
 			// a reader only shares the node (as RPC handlers share the Blockchain); its oracle is fixed
 			rd := &replayer{in: r.in, at: at, variant: variant, oracle: stableOracle, node: r.node, content: vers.match}
 			for n := 0; !stop.Load(); n++ {
+				if n%8 == 7 {
+					time.Sleep(200 * time.Microsecond) // keep the writer from being starved on a loaded box
+				}
 				f := filters[lr.Intn(len(filters))]
 				a := &mAct{Name: "Query", F: f, From: 0, Chunk: []uint64{1, 2, 100}[lr.Intn(3)], Limit: []uint{0, 1, 3}[lr.Intn(3)]}
 				onStable := n%2 == 0
@@ -301,9 +304,9 @@ func concurrentRound(in *concInput, round int, out *vh.Result, queries, tolerate
 	}()
 	select {
 	case <-writerDone:
-	case <-time.After(300 * time.Second):
+	case <-time.After(600 * time.Second):
 		dmu.Lock()
-		diverge("event-index-concurrent:hang:writer", "Store/RevertHead did not finish within 300 s while queries ran", nil, nil)
+		diverge("event-index-concurrent:hang:writer", "Store/RevertHead did not finish within 600 s while queries ran", nil, nil)
 		dmu.Unlock()
 		stop.Store(true)
 		return
